@@ -177,6 +177,48 @@ impl<'v> StarlarkValue<'v> for NatFn {
 
 // ---- enumeration -----------------------------------------------------------------------------------
 
+
+// ---- natives declared through #[starlark_module] (the path almost every builtin uses) --------------------------
+// Same signatures as seven of the enumerated Starlark defs; each returns the tuple of what its parameters received.
+#[starlark::starlark_module]
+pub fn c08_macro_natives(builder: &mut starlark::environment::GlobalsBuilder) {
+    fn mac1<'v>(#[starlark(require = pos)] a: Value<'v>, #[starlark(require = pos)] b: Value<'v>, heap: starlark::values::Heap<'v>) -> anyhow::Result<Value<'v>> {
+        Ok(heap.alloc((a, b)))
+    }
+    fn mac2<'v>(a: Value<'v>, #[starlark(default = 102)] b: i32, heap: starlark::values::Heap<'v>) -> anyhow::Result<Value<'v>> {
+        Ok(heap.alloc((a, b)))
+    }
+    fn mac3<'v>(a: Value<'v>, #[starlark(require = named)] b: Value<'v>, #[starlark(require = named, default = 103)] c: i32, heap: starlark::values::Heap<'v>) -> anyhow::Result<Value<'v>> {
+        Ok(heap.alloc((a, b, c)))
+    }
+    fn mac4<'v>(a: Value<'v>, #[starlark(args)] args: starlark::values::tuple::UnpackTuple<Value<'v>>, heap: starlark::values::Heap<'v>) -> anyhow::Result<Value<'v>> {
+        let t = heap.alloc(starlark::values::tuple::AllocTuple(args.items.clone()));
+        Ok(heap.alloc((a, t)))
+    }
+    fn mac5<'v>(#[starlark(default = 101)] a: i32, #[starlark(kwargs)] kw: starlark::values::dict::DictRef<'v>, heap: starlark::values::Heap<'v>) -> anyhow::Result<Value<'v>> {
+        let d = heap.alloc(starlark::values::dict::AllocDict(kw.iter().collect::<Vec<_>>()));
+        Ok(heap.alloc((a, d)))
+    }
+    fn mac6<'v>(
+        a: Value<'v>,
+        #[starlark(default = 102)] b: i32,
+        #[starlark(args)] args: starlark::values::tuple::UnpackTuple<Value<'v>>,
+        #[starlark(require = named, default = 103)] c: i32,
+        #[starlark(kwargs)] kw: starlark::values::dict::DictRef<'v>,
+        heap: starlark::values::Heap<'v>,
+    ) -> anyhow::Result<Value<'v>> {
+        let t = heap.alloc(starlark::values::tuple::AllocTuple(args.items.clone()));
+        let d = heap.alloc(starlark::values::dict::AllocDict(kw.iter().collect::<Vec<_>>()));
+        let (b, c) = (heap.alloc(b), heap.alloc(c));
+        Ok(heap.alloc(starlark::values::tuple::AllocTuple(vec![a, b, t, c, d])))
+    }
+    fn mac7<'v>(#[starlark(require = pos)] a: Value<'v>, b: Value<'v>, #[starlark(require = named)] c: Value<'v>, heap: starlark::values::Heap<'v>) -> anyhow::Result<Value<'v>> {
+        Ok(heap.alloc((a, b, c)))
+    }
+}
+
+const MACRO_SIGS: &[(&str, &str)] = &[("a, b, /", "mac1"), ("a, b=102", "mac2"), ("a, *, b, c=103", "mac3"), ("a, *args", "mac4"), ("a=101, **kw", "mac5"), ("a, b=102, *args, c=103, **kw", "mac6"), ("a, /, b, *, c", "mac7")];
+
 const NAMES: [&str; 5] = ["a", "b", "c", "d", "e"];
 
 pub fn all_sigs(max_named: usize) -> Vec<Sig> {
@@ -282,6 +324,10 @@ fn check_sig(ctx: &mut Ctx, sig: &Sig, calls: &[Call], r: &mut CaseResult) {
         a.push_str(&format!("    catch(lambda: f({s})),\n"));
     }
     a.push_str("]\nvia = viavar(f)\nnative = viavar(NAT)\n");
+    let mac = MACRO_SIGS.iter().find(|(sg, _)| *sg == sig.param_list()).map(|x| x.1);
+    if mac.is_some() {
+        a.push_str(&format!("macro_native = viavar({})\n", mac.unwrap()));
+    }
     // partial: first positional and first named argument bound early (only without **map)
     a.push_str("part = [\n");
     for c in calls {
@@ -317,13 +363,19 @@ fn check_sig(ctx: &mut Ctx, sig: &Sig, calls: &[Call], r: &mut CaseResult) {
         {
             let nat = module.heap().alloc(NatFn);
             module.set("NAT", nat);
+
             let mut eval = Evaluator::new(&module);
             sl::setup_eval(&mut eval, &cfg);
             if let Err(e) = eval.eval_module(ast, sl::globals()) {
                 r.fail("signature-rejected", format!("module for signature ({}) failed: {}", sig.param_list(), e.without_diagnostic()));
                 return None;
             }
-            for name in ["direct", "via", "native", "part"] {
+            let mut list_names = vec!["direct", "via", "native", "part"];
+            if mac.is_some() {
+                list_names.push("macro_native");
+                r.label("macro_native");
+            }
+            for name in list_names {
                 let l = module.get(name).and_then(ListRef::from_value).map(|l| l.iter().map(sl::encode).collect::<Vec<_>>()).unwrap_or_default();
                 lists.push((name, l));
             }
@@ -421,7 +473,7 @@ impl Prop for C08 {
         (10, 200)
     }
     fn rule(&self) -> String {
-        "Enumerated part: every legal signature with up to 4 named parameters (positional-only, positional-or-keyword, defaults, *args, bare *, keyword-only with/without default, **kwargs) x call shapes (0..4 positional, named subsets of size <= 2 over the parameter names plus a foreign name, *seq of length 0..3 or a non-iterable, **map empty / one key per candidate name / two and three keys / non-string key); quick runs a fixed stride through the call list per signature, thorough all of it (and 5 parameters). Each (signature, call) runs through the call paths: direct call, via a variable inside a def, frozen-and-loaded def (direct and via variable), partial(), host eval_function (positional+named only), a native callable backed by a run-time ParametersSpec with the same signature, and ParametersSpec::can_fill_with_args. Oracle: CPython binding the same def/call text (bound tuple, *args as tuple, **kwargs as ordered dict, or failure). Random part: signatures with up to 8 parameters and random calls. Non-trivial = the call uses >= 2 of {positional, named, *, **} or must fail; distinct = distinct (signature, call).".into()
+        "Enumerated part: every legal signature with up to 4 named parameters (positional-only, positional-or-keyword, defaults, *args, bare *, keyword-only with/without default, **kwargs) x call shapes (0..4 positional, named subsets of size <= 2 over the parameter names plus a foreign name, *seq of length 0..3 or a non-iterable, **map empty / one key per candidate name / two and three keys / non-string key); quick runs a fixed stride through the call list per signature, thorough all of it (and 5 parameters). Each (signature, call) runs through the call paths: direct call, via a variable inside a def, frozen-and-loaded def (direct and via variable), partial(), host eval_function (positional+named only), a native callable backed by a run-time ParametersSpec with the same signature, for seven signatures a native declared through #[starlark_module] (require = pos / named, default, args, kwargs), and ParametersSpec::can_fill_with_args. Oracle: CPython binding the same def/call text (bound tuple, *args as tuple, **kwargs as ordered dict, or failure). Random part: signatures with up to 8 parameters and random calls. Non-trivial = the call uses >= 2 of {positional, named, *, **} or must fail; distinct = distinct (signature, call).".into()
     }
     fn assumptions(&self) -> Vec<String> {
         vec![
